@@ -49,6 +49,9 @@ def parseRes (res : String) : String × Args :=
   | [] => ("", [])
   | h :: rest => (h, rest.filterMap parseKV)
 
+/-- all tokens of a result as key=value args -/
+def resArgs (res : String) : Args := ((res.splitOn " ").filter (· ≠ "")).filterMap parseKV
+
 inductive Msg where
   | corr (s : String)     -- model and implementation disagree
   | prop (s : String)     -- the property oracle fails on the implementation's output
